@@ -316,7 +316,20 @@ func c19Run(c c19Case, st *vlib.Stats) string {
 			return fmt.Sprintf("colDataTypes reports type %d for %s, the catalog was created with %d", types[i], dst[i], c.ColTypes[d])
 		}
 	}
-	cfg := importCfg{colTypes: types, db: db, dstCols: dst, separator: []rune(c.Sep)[0], srcCols: c.SrcCols, table: table}
+	// the configuration is built the way main() builds it: from the command-line flags
+	var srcStrs []string
+	for _, sc := range c.SrcCols {
+		srcStrs = append(srcStrs, fmt.Sprint(sc))
+	}
+	*cfgDb, *cfgDestCols, *cfgSrcCols, *cfgSep, *cfgTable = db, strings.Join(dst, ","), strings.Join(srcStrs, ","), c.Sep, table
+	cfg, err := makeConfig(rs)
+	if err != nil {
+		return "makeConfig failed: " + err.Error()
+	}
+	wantCfg := importCfg{colTypes: types, db: db, dstCols: dst, separator: []rune(c.Sep)[0], srcCols: c.SrcCols, table: table}
+	if !reflect.DeepEqual(cfg, wantCfg) {
+		return fmt.Sprintf("makeConfig built %+v from the flags, expected %+v", cfg, wantCfg)
+	}
 	text := c19Render(c)
 	chOk, chErr := doBatchInsert(rs, cfg, bytes.NewBufferString(text))
 	var events []bool
